@@ -166,6 +166,10 @@ def apply(soup, root, op):
             SX.check(False, 'C15:node-unreachable', lambda: {'node': ser(m), 'document': ser(root)})
             return 'skip'
         lst, i = m_holder(root, m)
+        pm = m.get('parent')
+        if name in ('delete', 'replace', 'remove') and pm is not None and pm['t'] == 'cmd' and pm['name'] != 'item' \
+                and any([c is m for c in pm['contents']]):
+            return 'skip'       # body of a renamed \\item: the command no longer accepts content edits (name class changed)
         if name == 'delete':
             node.delete()
             del lst[i]
@@ -182,7 +186,7 @@ def apply(soup, root, op):
             for x in ms:
                 x['parent'] = m['parent']
         elif name == 'rename':
-            if m['t'] not in ('cmd', 'env') or m['name'] in ('item', 'itemize'):
+            if m['t'] not in ('cmd', 'env'):
                 return 'skip'
             new = L(1) if op[2] == 'sym' else op[2]
             node.name = new
@@ -209,6 +213,10 @@ def apply(soup, root, op):
                 node.args.append('{n}')
                 m['args'].append({'t': 'group', 'kind': '{}', 'name': 'BraceGroup', 'args': [], 'isarg': True, 'parent': m, 'expr': None,
                                   'contents': [{'t': 'text', 's': 'n', 'expr': None, 'parent': None}]})
+            elif how == 'append2':
+                node.args.append('{{n}}')
+                m['args'].append({'t': 'group', 'kind': '{}', 'name': 'BraceGroup', 'args': [], 'isarg': True, 'parent': m, 'expr': None,
+                                  'contents': [{'t': 'text', 's': '{n}', 'expr': None, 'parent': None}]})
             elif how == 'insert0':
                 node.args.insert(0, '[m]')
                 m['args'].insert(0, {'t': 'group', 'kind': '[]', 'name': 'BracketGroup', 'args': [], 'isarg': True, 'parent': m, 'expr': None,
